@@ -7,4 +7,5 @@ CONSTANTS
   PartialUsecAsterisks = TRUE
   NegOffsetFix = TRUE
   CopyKeepsPrecision = TRUE
+  ForeignTzNorm = "keep"
 CHECK_DEADLOCK FALSE
